@@ -849,7 +849,7 @@ def compileCase (name : Name) (lits : List Name) (pattern body : Sexp) : Except 
             let fo := freeOcc (2 * body.size + 2) [] body
             let sfl : Flags :=
               { d := r.2.any (fun x => fo.contains x),
-                e := patEllRestList pats,
+                e := patEllRest (.nested pats),
                 f := depthMismatch depths (2 * body.size + 2) 0 body }
             .ok { pats := Pat.mangleList pats, body := r.1, intro := r.2, depths := depths, sflags := sfl }
   | _ => .error .badSyntax
@@ -1390,6 +1390,12 @@ def compileAll : List Sexp → Except Err (List Macro)
       | .ok m => match compileAll xs with
                  | .error e => .error e
                  | .ok ms => .ok (ms ++ [m])      -- later definitions are found first
+
+/-- The static flags (`d`,`e`,`f`) of all macro definitions of a program (used when M's expansion fails). -/
+def staticFlags (p : Prog) : Flags :=
+  match compileAll (p.forms.filter isDefineSyntax) with
+  | .error _ => {}
+  | .ok ms => (ms.flatMap (·.cases)).foldl (fun fl c => fl.or c.sflags) {}
 
 def expandM (fuel : Nat) (p : Prog) : Except Err (List Sexp × Flags) :=
   match compileAll (p.forms.filter isDefineSyntax) with
